@@ -83,7 +83,7 @@ def run(ctx):
     drive.setup(hooks=False)
     design(ctx)
     n = ctx.pick(500, 20000)
-    jobs = [(ctx.seed * 1000003 + i, dict(gen=dict(hostile=False))) for i in range(n)]
+    jobs = [(ctx.seed * 1000003 + i, dict(gen=dict(hostile=False, stale=0.15, only_partial=0.1))) for i in range(n)]
     results = drive.pmap(run_layout, jobs, hooks=False, chunksize=10)
     events, fails = validate(ctx, results, "C03")
     ok_runs = sum(1 for _e, f in results if f["exit"] == 0)
